@@ -245,6 +245,8 @@ def check_get_ttl(rep, fl):
                 ok = ok and norm(b.expand(leaf[3][0])) == tres
             elif leaf[0] == "agg" and leaf[2].endswith("Option::None"):
                 pass
+            elif is_call(leaf, "FromResidual::from_residual") and any(is_call(c, SM + "::get") for c in calls_in(leaf)):
+                pass  # `store.get(..)?`: the miss of the checked lookup, handed on as None
             else:
                 ok = ok and leaf == gres and False
         detail = "lookup args %s, deadline of %s, reported %s" % ([show(x) for x in ga[1:]], show(ea[1]), show(ta))
@@ -354,6 +356,22 @@ def keep_aspects(rep, fl, fn, table, prop=None):
         rep.notes.extend(tmp.notes)
 
 
+def keep_sites(rep, fl, fn, patterns, *args, **kw):
+    """Run rule function `fn(rep, fl, *args, **kw)` and keep the instances whose site matches one of the fnmatch
+    `patterns` (anchors that went missing are always kept): a property reports only the instances of a shared
+    rule function that are a necessary condition of that property."""
+    import fnmatch
+    from framework import Report
+    tmp = Report(rep.prop, rep.tier)
+    try:
+        fn(tmp, fl, *args, **kw)
+    finally:
+        # a pattern with a `|` is matched against `<function>|<site>`, otherwise against the site
+        hit = lambda i: any(fnmatch.fnmatchcase("%s|%s" % (i.func, i.site) if "|" in p_ else i.site, p_) for p_ in patterns)
+        rep.instances.extend(i for i in tmp.instances if i.verdict == "anchor-missing" or hit(i))
+        rep.notes.extend(tmp.notes)
+
+
 # which store-write obligations a property rests on (rule ids of _store_writes_all): a check reports only
 # what is a necessary condition of its own property, so that e.g. a change that loses the new
 # deadline of an update alarms C03 / C05 / C04 but not C02 or C18
@@ -387,7 +405,7 @@ def _store_writes_all(rep, fl):
     should = A(call("UpdateValidator::should_update", F(V("self"), "validator"), call("utils::SharedValue::get", ("field", item, "value")), val))
     guard = AND(A(("variant", le, "Some")), conflict_ok_formula(item), should)
     muts = []
-    for bi, t in calls_to(b, "mem::swap"):
+    for bi, t in calls_to(b, "mem::swap", "mem::replace"):
         muts.append(("swap", bi, term_idx(b, bi), t["sp"]))
     for bi, si, st in stmt_nodes(b, lambda s: has_field(s["pl"], "expiration", "store::StoreItem") or has_field(s["pl"], "value", "store::StoreItem") or has_field(s["pl"], "conflict", "store::StoreItem")):
         muts.append(("write " + field_last(st["pl"])[0], bi, si, st["sp"]))
@@ -402,19 +420,25 @@ def _store_writes_all(rep, fl):
         rep.check(ok, "R09.2", fl, b, name, "dominated by lookup-hit, conflict-ok and should_update == true",
                   "%s is reachable although the conflict test / UpdateValidator did not agree (%s): a vetoed or colliding insert changes the resident entry" % (name, show_state(cx) if cx else ""), loc=sp)
     # the Update path: swap(val, item.value) ; item.expiration = expiration ; returns Update(val)
-    sw = calls_to(b, "mem::swap")
+    # `mem::swap(&mut val, slot)` then Update(val), or `let prev = mem::replace(slot, val)` then Update(prev)
+    sw = calls_to(b, "mem::swap", "mem::replace")
     oksw = len(sw) == 1
+    old_value = val
     if oksw:
         a = [norm(x) for x in b.call_args(sw[0][1])]
-        tgt_ok = {a[0], a[1]} == {val, call("utils::SharedValue::get_mut", ("field", item, "value"))}
-        oksw = tgt_ok
-    rep.check(oksw, "R02.4", fl, b, "swap(val, item.value)", "the new value is swapped into the looked-up item", "mem::swap arguments are not (val, item.value)")
+        slot = call("utils::SharedValue::get_mut", ("field", item, "value"))
+        if callee_matches(b.callee_of(sw[0][1]), "mem::replace"):
+            oksw = a[0] == norm(slot) and a[1] == val
+            old_value = norm(b.call_expr(sw[0][1], True))
+        else:
+            oksw = {a[0], a[1]} == {val, norm(slot)}
+    rep.check(oksw, "R02.4", fl, b, "swap(val, item.value)", "the new value is swapped into the looked-up item", "mem::swap / mem::replace arguments are not (val, item.value)")
     ew = [(bi, si, st) for bi, si, st in stmt_nodes(b, lambda s: has_field(s["pl"], "expiration", "store::StoreItem"))]
     okew = len(ew) == 1 and norm(b.rvalue_expr(ew[0][2]["rv"], True)) == V("expiration") and norm(b.place_expr(ew[0][2]["pl"], True)) == ("field", item, "expiration")
     rep.check(okew, "R03.5", fl, b, "item.expiration = expiration", "an update replaces the stored deadline by the new one",
               "store.try_update does not install the new deadline: a re-inserted key keeps its old TTL")
     upd = agg_nodes(b, "store::UpdateResult", "Update")
-    okup = len(upd) == 1 and sw and block_dominates(b, sw[0][0], upd[0][0]) and upd[0][3][3][0] == val
+    okup = len(upd) == 1 and sw and block_dominates(b, sw[0][0], upd[0][0]) and (upd[0][3][3][0] == old_value or norm(b.expand(upd[0][3][3][0])) == old_value)
     rep.check(bool(okup), "R02.4", fl, b, "Update(val)", "Update(old value) is returned only after the swap", "the Update result is built without the swap: the resident value is not replaced (or the old value is lost)")
     okud = len(upd) == 1 and ew and block_dominates(b, ew[0][0], upd[0][0])
     rep.check(bool(okud), "R03.5", fl, b, "Update after deadline write", "Update is returned only after the new deadline was stored", "an update can return without storing the new deadline: the entry keeps its old TTL")
